@@ -502,6 +502,15 @@ func parseTrailer(t *protocol.Trailer, buf []byte) (int, error) {
 	var s HeaderScanner
 	s.B = buf
 	s.DisableNormalizing = t.IsDisableNormalizing()
+	// A trailer value is stored only once (UpdateArgBytes fills fields that have no value yet), so
+	// nothing may be stored before the whole section is buffered: a line that ends the buffer
+	// could still be continued by a folded line in the next read.
+	for s.Next() {
+	}
+	if s.Err != nil {
+		return 0, s.Err
+	}
+	s = HeaderScanner{B: buf, DisableNormalizing: t.IsDisableNormalizing()}
 	var err error
 	for s.Next() {
 		if len(s.Key) > 0 {
